@@ -283,14 +283,41 @@ fn run_http_outcome(inp: &Value, v: usize) -> Value {
                     }),
                 }
             });
-            with_script(script, || {
-                let core = Core::<CApp>::new();
-                let mut effs = core.process_event(CEvent::Go);
-                assert_eq!(effs.len(), 1, "exactly one request effect");
-                let CEffect::Http(mut req) = effs.pop().unwrap() else { panic!("not http") };
-                let more = core.resolve(&mut req, result.clone()).expect("resolve");
-                assert!(more.is_empty());
-                core.view()
+            with_script(script, || match api {
+                "capability" => {
+                    let core = Core::<CApp>::new();
+                    let mut effs = core.process_event(CEvent::Go);
+                    assert_eq!(effs.len(), 1, "exactly one request effect");
+                    let CEffect::Http(mut req) = effs.pop().unwrap() else { panic!("not http") };
+                    let more = core.resolve(&mut req, result.clone()).expect("resolve");
+                    assert!(more.is_empty());
+                    core.view()
+                }
+                "bridge_bin" => {
+                    // the shell's answer crosses the bridge as bytes written by a Rust shell
+                    use bincode::Options;
+                    let o = bincode::DefaultOptions::new().with_fixint_encoding().allow_trailing_bytes();
+                    let b = Bridge::<CApp>::new(Core::new());
+                    let out = b.process_event(&o.serialize(&CEvent::Go).unwrap()).expect("event");
+                    let reqs: Vec<crux_core::bridge::Request<CEffectFfi>> = o.deserialize(&out).unwrap();
+                    assert_eq!(reqs.len(), 1, "exactly one request effect");
+                    b.handle_response(reqs[0].id.0, &o.serialize(&result).unwrap()).expect("response");
+                    o.deserialize(&b.view().unwrap()).unwrap()
+                }
+                _ => {
+                    let b = BridgeWithSerializer::<CApp>::new(Core::new());
+                    let mut out = vec![];
+                    let ev = serde_json::to_vec(&CEvent::Go).unwrap();
+                    b.process_event(&mut serde_json::Deserializer::from_slice(&ev), &mut serde_json::Serializer::new(&mut out)).expect("event");
+                    let reqs: Vec<crux_core::bridge::Request<CEffectFfi>> = serde_json::from_slice(&out).unwrap();
+                    assert_eq!(reqs.len(), 1, "exactly one request effect");
+                    let body = serde_json::to_vec(&result).unwrap();
+                    let mut out2 = vec![];
+                    b.handle_response(reqs[0].id.0, &mut serde_json::Deserializer::from_slice(&body), &mut serde_json::Serializer::new(&mut out2)).expect("response");
+                    let mut vb = vec![];
+                    b.view(&mut serde_json::Serializer::new(&mut vb)).unwrap();
+                    serde_json::from_slice(&vb).unwrap()
+                }
             })
         }
     }))
